@@ -5,7 +5,7 @@
 From Coq Require Import List NArith ZArith Bool Ascii String.
 From Authlib Require Import Base.Bytes Base.Base64 Base.BigEndian Base.PyVal Base.Url Base.Percent Base.Utf8 Base.Form.
 From Authlib Require Proofs.UrlP.
-From Authlib Require Import Model.JWK Model.Claims Spec.ClaimsSpec Model.Resource Model.Scope Model.ClientAuth Model.Metadata Spec.MetadataSpec Model.Registration Model.Wire Model.OAuth1Sig Model.Authorize Model.CodeFlow.
+From Authlib Require Import Model.JWK Model.Claims Spec.ClaimsSpec Model.Resource Model.Scope Model.ClientAuth Model.Metadata Spec.MetadataSpec Model.Registration Model.Wire Model.OAuth1Sig Model.Authorize Model.CodeFlow Model.TokenLife.
 Import ListNotations.
 Open Scope string_scope.
 
@@ -324,6 +324,50 @@ Definition dispatch_codeflow (fn : string) (a : pv) : option pv :=
   else if String.eqb fn "pkce_wf" then Some (PBool (pkce_wf (pv_str a)))
   else None.
 
+Definition tref_of (v : pv) : option tref :=
+  match v with
+  | PList [PStr k; PInt i] => if String.eqb k "access" then Some (RAccess (Z.to_nat i)) else Some (RRefresh (Z.to_nat i))
+  | PStr _ => Some RUnknown
+  | _ => None
+  end.
+Definition lcred_of (v : pv) : lcred :=
+  match v with PList [PStr id; PStr sec] => LBasic id sec | _ => LAbsent end.
+Definition hint_of (v : pv) : hint :=
+  match v with
+  | PStr h => if String.eqb h "access_token" then HAccess else if String.eqb h "refresh_token" then HRefresh
+              else if String.eqb h "" then HNone else HBogus
+  | _ => HNone
+  end.
+Definition lop_of (v : pv) : lop :=
+  let k := arg_s "op" v in
+  if String.eqb k "issue" then LIssue (arg_b "password" v) (lcred_of (arg "cred" v)) (arg_s "user" v) (ostr (arg "scope" v))
+  else if String.eqb k "refresh" then
+    LRefresh (match tref_of (arg "token" v) with Some t => t | None => RUnknown end) (lcred_of (arg "cred" v)) (ostr (arg "scope" v))
+  else if String.eqb k "revoke" then LRevoke (tref_of (arg "token" v)) (lcred_of (arg "cred" v)) (hint_of (arg "hint" v))
+  else if String.eqb k "introspect" then LIntrospect (tref_of (arg "token" v)) (lcred_of (arg "cred" v)) (hint_of (arg "hint" v))
+  else if String.eqb k "access" then
+    LAccess (match tref_of (arg "token" v) with Some t => t | None => RUnknown end) (norm_required (arg "required" v))
+  else LTick (arg_z "dt" v).
+Definition pv_of_lout (o : lout) : pv :=
+  match o with
+  | LToken i sc hr => PList [PStr "token"; PInt (Z.of_nat i); pv_of_ostr sc; PBool hr]
+  | LOk200 => PList [PStr "ok"]
+  | LIntro a c sc => PList [PStr "introspect"; PBool a; PStr c; pv_of_ostr sc]
+  | LServe i => PList [PStr "serve"; PInt (Z.of_nat i)]
+  | LErr st c => PList [PStr "error"; PInt (Z.of_N st); PStr c]
+  | LNone => PList [PStr "none"]
+  end.
+Definition dispatch_tokenlife (fn : string) (a : pv) : option pv :=
+  if String.eqb fn "tokenlife_run" then
+    let reg := map (fun c => {| lc_id := arg_s "id" c; lc_secret := arg_s "secret" c; lc_scope := arg_s "scope" c;
+                                lc_grants := arg_strs "grants" c |}) (arg_l "registry" a) in
+    let ops := map lop_of (arg_l "ops" a) in
+    let fin := lrun reg (arg_s "introspector" a) ops in
+    Some (PDict [("outs", PList (map pv_of_lout (lrun_outs reg (arg_s "introspector" a) linit ops)));
+                 ("tokens", PList (map (fun t => PList [PStr (k_client t); pv_of_ostr (k_scope t); PBool (k_acc_rev t);
+                                                        PBool (k_ref_rev t)]) (l_toks fin)))])
+  else None.
+
 Definition dispatch (fn : string) (a : pv) : pv :=
   if String.eqb fn "oracle_echo" then oracle "echo" a else
   match dispatch_jwk fn a with
@@ -361,6 +405,9 @@ Definition dispatch (fn : string) (a : pv) : pv :=
   | None =>
   match dispatch_codeflow fn a with
   | Some r => r
+  | None =>
+  match dispatch_tokenlife fn a with
+  | Some r => r
   | None => err ("unknown function " ++ fn)
-  end end end end end end end end end end end end.
+  end end end end end end end end end end end end end.
 End D.
